@@ -11,8 +11,8 @@ histories of **any** length:
   violation `translate_three_frames_not_rect` of the excluded case; `compress_empty_unchanged`);
 * `step_names_nodup` / `run_names_nodup` — names stay pairwise distinct unless the caller edits names;
 * `step_refines` / `run_refines` — refinement to the plain-list reference model `Gv.Spec.stepOp`, for
-  all 34 operations of the history language (`Unalign`, `RenameRegexp`, `SetAlphabet`,
-  `ReverseComplementSequences`, `DiffWithFirst` and `ReplaceMatchChars` included);
+  all 36 operations of the history language (`Unalign`, `RenameRegexp`, `SetAlphabet`,
+  `ReverseComplementSequences`, `DiffWithFirst`, `ReplaceMatchChars`, `Mask` and `MaskOccurences` / `MaskUnique` included);
 * `lookup_paths_agree`, `idByName_spec`, `byName_found_iff`, `obs_*` — the access paths agree;
 * `add_wrong_length_rejected` — a sequence of the wrong length is rejected, state unchanged.
 
@@ -152,6 +152,20 @@ theorem step_inv (b : Bag) (h : Inv b) (op : Op) (hw : OpWF b op) : Inv (stepOp 
     · split
       · exact h
       · rename_i r hr; exact (sameShape_replaceMatchChars hr).inv h
+  | mask refseq start len mr nogap noref =>
+    simp only [stepOp]
+    split
+    · exact h
+    · split
+      · exact h
+      · rename_i r hr; exact (sameShape_maskBag hr).inv h
+  | maskOcc refseq maxOcc mr =>
+    simp only [stepOp]
+    split
+    · exact h
+    · split
+      · exact h
+      · rename_i r hr; exact (sameShape_maskOccBag hr).inv h
 
 /-- **Every reachable state satisfies the invariant**: induction over histories of any length, from
 any state satisfying it (in particular from the empty containers). -/
@@ -448,6 +462,20 @@ theorem step_rect (b : Bag) (h : Rect b) (op : Op) (hw : RectOK b op) : Rect (st
     · split
       · exact h
       · rename_i r hr; exact (sameShape_replaceMatchChars hr).rect h
+  | mask refseq start len mr nogap noref =>
+    simp only [stepOp]
+    split
+    · exact h
+    · split
+      · exact h
+      · rename_i r hr; exact (sameShape_maskBag hr).rect h
+  | maskOcc refseq maxOcc mr =>
+    simp only [stepOp]
+    split
+    · exact h
+    · split
+      · exact h
+      · rename_i r hr; exact (sameShape_maskOccBag hr).rect h
 
 /-- **Every reachable alignment is rectangular**: induction over histories of any length. -/
 theorem run_rect (ops : List Op) (b : Bag) (h : Rect b) (hw : HistRectOK b ops) : Rect (finalState b ops) := by
@@ -586,11 +614,11 @@ def OpWFR (b : Bag) : Op → Prop
   | .sample _ perm => IsPerm perm b.rows.length
   | _ => True
 
-/-- **One step refines the reference model** — every one of the 34 operations of the history
+/-- **One step refines the reference model** — every one of the 36 operations of the history
 language (`add`, `ignore`, `clear`, `append`, `concat`, `rename`, `appendId`, `cleanNames`, `trimNames`,
 `trimAuto`, `sort`, `permute`, `filter`, `dedup`, `rmSeqs`, `translate`, `clone`, `sample`, `toUpper`,
 `toLower`, `replace`, `setChar`, `trimSeqs`, `autoAlpha`, `revcomp`, `replaceChar`, `rmGapSites`, `compress`,
-`unalign`, `renameRe`, `setAlpha`, `revcompSeqs`, `diffFirst`, `replaceMatch`), arbitrary arguments: whenever the reference
+`unalign`, `renameRe`, `setAlpha`, `revcompSeqs`, `diffFirst`, `replaceMatch`, `mask`, `maskOcc`), arbitrary arguments: whenever the reference
 specifies the outcome of the operation on the observable content, the Go-shaped model yields exactly
 that content (names, row order, residues, policy, alphabet, kind) and that status, and the strong
 invariant holds again. -/
@@ -633,6 +661,8 @@ theorem step_refines (b : Bag) (h : Good b) (op : Op) (hw : OpWFR b op)
     | revcompSeqs names => exact ref_revcompSeqs h names
     | diffFirst => exact ref_diffFirst h
     | replaceMatch => exact ref_replaceMatch h
+    | mask refseq start len mr nogap noref => exact ref_mask h refseq start len mr nogap noref
+    | maskOcc refseq maxOcc mr => exact ref_maskOcc h refseq maxOcc mr
   exact this s' st hs
 
 /-- the reference model run over a history: final content and the status of every step; `none` as
